@@ -1,3 +1,4 @@
+import Soa.Lemmas.SpecRetainW
 import Soa.Props.C01
 import Soa.Lemmas.Ledger
 /-!
@@ -233,6 +234,53 @@ theorem retain_spec (keep : Nat → Bool) (rs : List Elem) :
   simp only [dropRows, ↓reduceIte]
   show ([] : List Nat) ++ _ = _
   simp
+
+/-- `retain_mut` with a callback that **writes**: the destructor runs once for each (written) element the
+    callback rejected — the writes themselves run no struct destructor -/
+theorem retain_mut (keep : Nat → Bool) (touch : Nat → Nat → Option (Nat × Nat)) (hc : c.lock n) :
+    (Model.retain true c keep none touch).ev.dropT.Perm
+      ((RetainIdx.filterIdx (fun i => !keep i) 0 (RetainIdx.updFrom (Lp.updOf touch) 0 c.rows)).map firstId) := by
+  have hlen := rows_len n c hc
+  have hL := Lp.retainLoopW_rows keep touch n n 0 0 c [] [] {} [] hc (by omega) (by simp)
+  have hF := RetainIdx.loopW_filter keep (Lp.updOf touch) c.rows
+  have hJ := RetainIdx.loopW_junk keep (Lp.updOf touch) c.rows
+  have hD := Lp.retainLoopW_dropT keep none touch n 0 0 c [] {} []
+  rw [hlen] at hF hJ
+  simp only at hL hF hJ
+  unfold Model.retain
+  rw [firstLen_lock c n hc]
+  dsimp only
+  generalize Model.retainLoop keep none touch n 0 0 c [] {} [] = L at hL hD ⊢
+  generalize RetainIdx.loopW keep (Lp.updOf touch) n 0 0 c.rows [] = R at hL hF hJ
+  obtain ⟨hL1, hL2, _, hL4, hL5, _⟩ := hL
+  obtain ⟨_, _, hF4, hF5⟩ := hF
+  have hb : L.boom = false := hL4
+  have hD' : L.ev.dropT = [] := hD
+  by_cases hd : L.del > 0
+  · simp only [hb, hd, Bool.false_eq_true, ↓reduceIte]
+    have ht := truncateLoop_dropT (n - L.del) (L.c.firstLen - (n - L.del) + 1) n L.c {} hL5
+      (by rw [firstLen_lock _ n hL5]; omega)
+    show (L.ev.dropT ++ (Model.truncate true L.c (n - L.del)).ev.dropT).Perm _
+    rw [hD']
+    simp only [Model.truncate]
+    refine (List.Perm.trans ?_ (List.Perm.map firstId hJ))
+    rw [← hL1, ← hL2]
+    simpa using ht
+  · simp only [hb, hd, Bool.false_eq_true, ↓reduceIte]
+    have hz : R.2.1 = 0 := by rw [← hL2]; omega
+    rw [hz, Nat.sub_zero, List.drop_of_length_le (by omega)] at hJ
+    rw [hD']
+    have := List.Perm.map firstId hJ
+    simpa using this
+
+/-- … as `Vec::retain_mut` destroys them -/
+theorem retain_mut_spec (keep : Nat → Bool) (touch : Nat → Nat → Option (Nat × Nat)) (rs : List Elem) :
+    (Spec.retain true rs keep none touch).ev.dropT =
+      (RetainIdx.filterIdx (fun i => !keep i) 0 (RetainIdx.updFrom (Lp.updOf touch) 0 rs)).map firstId := by
+  unfold Spec.retain
+  show (Spec.retainGo keep none touch 0 rs _).ev.dropT ++ _ = _
+  rw [Spec.retainGo_touch_dropT, Spec.retainGo_touch_gone]
+  simp [dropRows]
 
 /-! non-vacuity: a Drop-implementing 2-field struct, clearing 2 elements runs 2 destructors -/
 example : (Model.clear true (.nest [.leaf [8, 16], .leaf [9, 17]])).ev.dropT = [16, 8] := by decide
